@@ -164,3 +164,126 @@ pub proof fn lemma_add2_final(oa: Seq<u64>, olo: Seq<u64>, ohi: Seq<u64>, fa: Se
         assert(pw(n) * 1 == pw(n)) by (nonlinear_arith);
     }
 }
+
+/// one sbb step: f = o - b with borrow
+pub proof fn lemma_sub_step(f: Seq<u64>, o: Seq<u64>, b: Seq<u64>, k: nat, c0: nat, c1: nat)
+    requires k < f.len(), k < o.len(), k < b.len(),
+        valp(f, k) + valp(b, k) == valp(o, k) + pw(k) * c0,
+        (f[k as int] as nat) + (b[k as int] as nat) + c0 == (o[k as int] as nat) + B() * c1,
+    ensures valp(f, k + 1) + valp(b, k + 1) == valp(o, k + 1) + pw(k + 1) * c1
+{
+    assert(pw(k + 1) == B() * pw(k));
+    let p = pw(k);
+    let fk = f[k as int] as nat; let ok = o[k as int] as nat; let bk = b[k as int] as nat;
+    assert(fk * p + bk * p + p * c0 == ok * p + (B() * p) * c1) by (nonlinear_arith)
+        requires fk + bk + c0 == ok + B() * c1;
+}
+
+/// one borrow-propagation step (subtracting the borrow only)
+pub proof fn lemma_sub_step1(f: Seq<u64>, o: Seq<u64>, k: nat, c0: nat, c1: nat)
+    requires k < f.len(), k < o.len(),
+        valp(f, k) + 1 == valp(o, k) + pw(k) * c0,
+        (f[k as int] as nat) + c0 == (o[k as int] as nat) + B() * c1,
+    ensures valp(f, k + 1) + 1 == valp(o, k + 1) + pw(k + 1) * c1
+{
+    assert(pw(k + 1) == B() * pw(k));
+    let p = pw(k);
+    let fk = f[k as int] as nat; let ok = o[k as int] as nat;
+    assert(fk * p + p * c0 == ok * p + (B() * p) * c1) by (nonlinear_arith)
+        requires fk + c0 == ok + B() * c1;
+}
+
+pub proof fn lemma_tail_same_sub(f: Seq<u64>, o: Seq<u64>, i: nat, c: nat)
+    requires f.len() == o.len(), i <= f.len(),
+        forall|j: int| i <= j < f.len() ==> f[j] == o[j],
+        valp(f, i) + 1 == valp(o, i) + pw(i) * c,
+        i < f.len() ==> c == 0,
+    ensures val(f) + 1 == val(o) + pw(f.len()) * c
+{
+    if i < f.len() {
+        assert(pw(i) * 0 == 0) by (nonlinear_arith);
+        assert(pw(f.len()) * 0 == 0) by (nonlinear_arith);
+        lemma_valp_tail_eq(f, o, i, f.len());
+    }
+}
+
+/// recomposition for sub2: low part equation + high part propagation => whole equation
+pub proof fn lemma_sub2_final(oa: Seq<u64>, olo: Seq<u64>, ohi: Seq<u64>, fa: Seq<u64>, flo: Seq<u64>, fhi: Seq<u64>, blo: Seq<u64>, c_mid: nat, c: nat)
+    requires
+        oa =~= olo + ohi, fa =~= flo + fhi, flo.len() == olo.len(), fhi.len() == ohi.len(), blo.len() == olo.len(),
+        val(flo) + val(blo) == val(olo) + pw(olo.len()) * c_mid,
+        c_mid <= 1,
+        c_mid == 0 ==> fhi =~= ohi && c == 0,
+        c_mid == 1 ==> val(fhi) + 1 == val(ohi) + pw(ohi.len()) * c,
+    ensures val(fa) + val(blo) == val(oa) + pw(oa.len()) * c
+{
+    let n = olo.len();
+    let h = ohi.len();
+    lemma_val_concat(olo, ohi);
+    lemma_val_concat(flo, fhi);
+    lemma_pw_add(n, h);
+    if c_mid == 0 {
+        assert(pw(n) * 0 == 0) by (nonlinear_arith);
+        assert(pw(oa.len()) * 0 == 0) by (nonlinear_arith);
+    } else {
+        assert(pw(n) * (val(fhi) + 1) == pw(n) * val(fhi) + pw(n)) by (nonlinear_arith);
+        assert(pw(n) * (val(ohi) + pw(h) * c) == pw(n) * val(ohi) + (pw(n) * pw(h)) * c) by (nonlinear_arith);
+        assert(pw(n) * 1 == pw(n)) by (nonlinear_arith);
+    }
+}
+
+/// the mandatory underflow assertion of sub2/sub2rev holds exactly when a >= b
+pub proof fn lemma_sub_assert(oa: Seq<u64>, fa: Seq<u64>, bs: Seq<u64>, blo: Seq<u64>, bhi: Seq<u64>, c: nat)
+    requires
+        fa.len() == oa.len(), bs =~= blo + bhi, c <= 1,
+        bhi.len() > 0 ==> blo.len() == oa.len(),
+        blo.len() <= oa.len(),
+        val(fa) + val(blo) == val(oa) + pw(oa.len()) * c,
+    ensures
+        (c == 0 && (forall|i: int| 0 <= i < bhi.len() ==> bhi[i] == 0)) <==> val(oa) >= val(bs),
+        (c == 0 && (forall|i: int| 0 <= i < bhi.len() ==> bhi[i] == 0)) ==> val(fa) + val(bs) == val(oa),
+{
+    lemma_val_concat(blo, bhi);
+    lemma_valp_zero_iff(bhi, bhi.len());
+    lemma_valp_bound(fa, fa.len());
+    lemma_valp_bound(oa, oa.len());
+    lemma_valp_bound(blo, blo.len());
+    lemma_pw_pos(blo.len());
+    lemma_pw_mono(blo.len(), oa.len());
+    let pb = pw(blo.len());
+    let pa = pw(oa.len());
+    let vh = val(bhi);
+    if vh == 0 {
+        assert(pb * 0 == 0) by (nonlinear_arith);
+        if c == 0 { assert(pa * 0 == 0) by (nonlinear_arith); }
+        else { assert(pa * 1 == pa) by (nonlinear_arith); }
+    } else {
+        assert(pb * vh >= pb) by (nonlinear_arith) requires vh >= 1;
+    }
+}
+
+/// sub2rev: b := a - b where |b| >= |a|; the low |a| digits were subtracted with borrow c, the high digits of b are unchanged
+pub proof fn lemma_sub_assert_rev(a_s: Seq<u64>, flo: Seq<u64>, ob: Seq<u64>, blo: Seq<u64>, bhi: Seq<u64>, c: nat)
+    requires
+        ob =~= blo + bhi, blo.len() == a_s.len(), flo.len() == a_s.len(), c <= 1,
+        val(flo) + val(blo) == val(a_s) + pw(a_s.len()) * c,
+    ensures
+        (c == 0 && (forall|i: int| 0 <= i < bhi.len() ==> bhi[i] == 0)) <==> val(a_s) >= val(ob),
+        (c == 0 && (forall|i: int| 0 <= i < bhi.len() ==> bhi[i] == 0)) ==> val(flo + bhi) + val(ob) == val(a_s),
+{
+    lemma_val_concat(blo, bhi);
+    lemma_val_concat(flo, bhi);
+    lemma_valp_zero_iff(bhi, bhi.len());
+    lemma_valp_bound(flo, flo.len());
+    lemma_valp_bound(a_s, a_s.len());
+    lemma_valp_bound(blo, blo.len());
+    lemma_pw_pos(blo.len());
+    let pa = pw(a_s.len());
+    let vh = val(bhi);
+    if vh == 0 {
+        assert(pa * 0 == 0) by (nonlinear_arith);
+        if c == 1 { assert(pa * 1 == pa) by (nonlinear_arith); }
+    } else {
+        assert(pa * vh >= pa) by (nonlinear_arith) requires vh >= 1;
+    }
+}
